@@ -128,7 +128,7 @@ int main(void)
   setvbuf(stdout, NULL, _IOLBF, 0);
   while (fgets(line, sizeof(line), stdin)) {
     char *f[5]; int nf = 0, r; char *p = line; char kind = line[0];
-    alarm(6);    /* a hang of the library on this case kills the process; the check resumes after it */
+    alarm(4);    /* a hang of the library on this case kills the process; the check resumes after it */
     size_t L = strlen(line); while (L && (line[L - 1] == '\n' || line[L - 1] == '\r')) line[--L] = 0;
     if (L < 3) { printf("bad-case\n"); continue; }
     p = line + 2; f[nf++] = p;
